@@ -91,6 +91,10 @@ func (h verifC02Handler) Process(ctx Context, msg Msg) Result {
 	i := int(msg.(testutils.MsgCounter).Counter)
 	h.env.ran[i] = true
 	ctx.Store(h.env.key).Set(nil, []byte{'m', byte(i)}, []byte{1})
+	// a message also rewrites a key the ante handler wrote (the payer's
+	// account on the real chain) and deletes another one
+	ctx.Store(h.env.key).Set(nil, []byte("fee"), []byte{byte(10 + i)})
+	ctx.Store(h.env.key).Delete(nil, []byte("nonce"))
 	ctx.GasMeter().ConsumeGas(h.env.msgGas[i], "msg")
 	switch h.env.msgOutcome[i] {
 	case 1:
@@ -128,6 +132,7 @@ func verifC02Ante(env *verifC02Env) AnteHandler {
 		}
 		newCtx.Store(env.key).Set(nil, []byte("fee"), []byte{1})
 		newCtx.Store(env.key).Set(nil, []byte("seq"), []byte{1})
+		newCtx.Store(env.key).Set(nil, []byte("nonce"), []byte{1})
 		newCtx.GasMeter().ConsumeGas(env.anteGas, "ante")
 		return newCtx, Result{GasWanted: env.gasWanted}, false
 	}
@@ -206,7 +211,11 @@ func VerifC02_RunTxDeliver() {
 		}
 		if ok {
 			verifAssert(has("fee") && has("seq") && allMsgs, "a successful transaction's changes are all visible")
+			verifAssert(len(kv.m["fee"]) == 1 && kv.m["fee"][0] == byte(10+env.nmsgs-1) && !has("nonce"), "on success a key rewritten (or deleted) by the messages holds the last message's value")
 		} else {
+			if has("fee") {
+				verifAssert(len(kv.m["fee"]) == 1 && kv.m["fee"][0] == 1 && has("nonce"), "on failure a key written by the ante handler and rewritten (or deleted) by a message keeps the ante handler's value")
+			}
 			verifAssert(!anyMsg, "a failing transaction leaves none of its message changes visible")
 			verifAssert(has("fee") == has("seq"), "fee deduction and sequence increment stand or fall together")
 		}
